@@ -12,7 +12,8 @@ import (
 	"sort"
 	"strings"
 	"sync"
-	"syscall"
+	"crypto/tls"
+	"crypto/x509"
 	"time"
 
 	"github.com/attestantio/dirk/util"
@@ -35,6 +36,63 @@ type ExternalEnv struct {
 	// TraceFile: when the binary was built with the verif tag, its storage observation points are appended here (VERIF_TRACE_FILE)
 	TraceFile string
 	proc      *exec.Cmd
+	exited    chan struct{} // closed when the process has been reaped
+}
+
+// watchProc reaps the process in the background; the channel is closed when it has exited.
+func watchProc(cmd *exec.Cmd) chan struct{} {
+	ch := make(chan struct{})
+	go func() { _ = cmd.Wait(); close(ch) }()
+	return ch
+}
+
+func hasExited(ch chan struct{}) bool {
+	select {
+	case <-ch:
+		return true
+	default:
+		return false
+	}
+}
+
+// waitOurServer waits until the process just started serves TLS on addr WITH A CERTIFICATE OF THIS ENVIRONMENT.  (The free port was
+// chosen a moment before the program binds it; on a busy machine another process - a node of a scenario running in parallel - can take
+// it in between.  The program then exits, and whatever answers on that address is not the system under test.)
+func waitOurServer(addr string, exited chan struct{}, stderrPath string, pkis ...*PKI) error {
+	deadline := time.Now().Add(30 * time.Second)
+	stderr := func() string { out, _ := os.ReadFile(stderrPath); return string(out) }
+	for {
+		if hasExited(exited) {
+			return fmt.Errorf("the dirk binary exited during start-up (%s): %s", addr, stderr())
+		}
+		c, err := tls.DialWithDialer(&net.Dialer{Timeout: 500 * time.Millisecond}, "tcp", addr, &tls.Config{InsecureSkipVerify: true, MinVersion: tls.VersionTLS13}) //nolint:gosec
+		if err == nil {
+			certs := c.ConnectionState().PeerCertificates
+			_ = c.Close()
+			for _, p := range pkis {
+				if p == nil || len(certs) == 0 {
+					continue
+				}
+				pool := x509.NewCertPool()
+				pool.AddCert(p.CACert)
+				inter := x509.NewCertPool()
+				for _, ic := range certs[1:] {
+					inter.AddCert(ic)
+				}
+				if _, verr := certs[0].Verify(x509.VerifyOptions{Roots: pool, Intermediates: inter, KeyUsages: []x509.ExtKeyUsage{x509.ExtKeyUsageAny}}); verr == nil {
+					if hasExited(exited) {
+						return fmt.Errorf("the dirk binary exited during start-up (%s): %s", addr, stderr())
+					}
+					return nil
+				}
+			}
+			return fmt.Errorf("address %s is served by a process that is not the one just started (certificate of another authority)", addr)
+		}
+		if time.Now().After(deadline) {
+			return fmt.Errorf("the dirk binary did not start listening on %s: %v: %s", addr, err, stderr())
+		}
+		time.Sleep(20 * time.Millisecond)
+	}
 }
 
 // Node describes one instance of a cluster of real binaries.
@@ -195,27 +253,19 @@ func (e *ExternalEnv) Start() error {
 		return err
 	}
 	e.proc = cmd
-	deadline := time.Now().Add(20 * time.Second)
-	for {
-		c, err := net.DialTimeout("tcp", e.Addr, 200*time.Millisecond)
-		if err == nil {
-			_ = c.Close()
-			return nil
-		}
-		if time.Now().After(deadline) {
-			out, _ := os.ReadFile(filepath.Join(e.Dir, "dirk.stderr"))
-			e.Kill()
-			return fmt.Errorf("the dirk binary did not start listening on %s: %s", e.Addr, string(out))
-		}
-		time.Sleep(20 * time.Millisecond)
+	e.exited = watchProc(cmd)
+	if err := waitOurServer(e.Addr, e.exited, filepath.Join(e.Dir, "dirk.stderr"), e.PKI, e.Other); err != nil {
+		e.Kill()
+		return err
 	}
+	return nil
 }
 
 // Kill sends SIGKILL (a crash, not a shutdown) and reaps the process.
 func (e *ExternalEnv) Kill() {
 	if e.proc != nil {
 		_ = e.proc.Process.Kill()
-		_, _ = e.proc.Process.Wait()
+		<-e.exited
 		e.proc = nil
 	}
 }
@@ -435,6 +485,14 @@ func RunRemoteDkg(ctx context.Context, sc *DkgScenario, binary string, log *Log)
 		}
 		return "absent"
 	}
+	if len(sc.Calls) > 0 {
+		// every instance answers a listing before anything is sent: a node that is unreachable from the start is a failure of the set-up
+		for _, id := range ids {
+			if snap(id, sc.Account) == "?" {
+				return fmt.Errorf("instance %d (%s) does not answer before the first call", id, addrs[id])
+			}
+		}
+	}
 	for i, call := range sc.Calls {
 		if call.Msg == "tick" {
 			time.Sleep(time.Duration(call.TickMs) * time.Millisecond)
@@ -510,7 +568,7 @@ func RunRemoteDkg(ctx context.Context, sc *DkgScenario, binary string, log *Log)
 			_ = c.Close()
 		}
 		after := snap(call.Inst, call.Account)
-		alive := e.proc != nil && syscall.Kill(e.proc.Process.Pid, 0) == nil && after != "?"
+		alive := e.proc != nil && !hasExited(e.exited) && after != "?"
 		ev := Ev{"ev": "Call", "i": i, "inst": call.Inst, "caller": call.Caller, "msg": call.Msg, "account": call.Account, "result": errClass(cerr),
 			"changed": before != after, "crashed": !alive}
 		if cerr != nil {
